@@ -836,6 +836,13 @@ func (b *boundsAnalysis) transfer(n ast.Node, facts factSet, errFacts map[string
 				b.assign(name, s.Values[i], token.DEFINE, facts)
 			} else {
 				b.killTerm(facts, p.Canon(name))
+				if _, isSlice := p.TypeOf(name).Underlying().(*types.Slice); isSlice {
+					t := "len(" + p.Canon(name) + ")"
+					b.noteTerm(t, termInfo{lo: 0, hasLo: true})
+					l := newLin()
+					l.co[t] = 1
+					facts.addGE(newLin().add(l, -1)) // a nil slice: length 0
+				}
 				if core.NamedPkgOf(p.TypeOf(name)) == "bytes.Buffer" {
 					t := "len(buf:" + p.Canon(name) + ")"
 					b.noteTerm(t, termInfo{lo: 0, hasLo: true})
@@ -1173,6 +1180,14 @@ func (b *boundsAnalysis) lenOf(e ast.Expr) (lin, bool) {
 		case "make":
 			if len(x.Args) >= 2 {
 				return b.linearise(x.Args[1])
+			}
+		case "append":
+			if !x.Ellipsis.IsValid() && len(x.Args) >= 1 {
+				if base, ok := b.lenOf(x.Args[0]); ok {
+					base = base.clone()
+					base.k += int64(len(x.Args) - 1)
+					return base, true
+				}
 			}
 		}
 	case *ast.CompositeLit:
